@@ -85,7 +85,7 @@ theorem root_complete_full (hf : HashFn α H) (s : Segment α H) (size : Nat)
     (v : FullId s.id size) (rest : List (Nat × α))
     (hleaves : s.leafPos.zip s.leafData = leavesOf dataAt (s.id.positions size) ++ rest) :
     s.root hf size none = .ok (some (hsAt (lastOf s.id))) := by
-  unfold Segment.root
+  rw [root_of_nonempty hf s size none (unprunedSize_ne_zero_of_full s.id size (full_arith s.id size v).2.2.1)]
   rw [full_positions s.id size v] at hleaves ⊢
   rw [(full_arith s.id size v).2.2.1]
   exact rootWith_tree_complete hf s size hsAt dataAt leafLaw nodeLaw _ _ (height_lastOf s.id) _ rest hleaves
